@@ -151,6 +151,8 @@ class Module:
         if (name or val.name) in _banned:
             msg = f"Error attempting to over-write protected attribute {name or val.name} of Module {self}"
             raise RuntimeError(msg)
+        # Check that the addition will be accepted, before modifying `val`
+        _assert_addable(self, val, name if name is not None else val.name)
         if name is not None:  # One or the other set - great.
             val.name = name
 
@@ -180,17 +182,27 @@ class Module:
 
         if key.startswith("_") or not getattr(self, "_initialized", False):
             # Bootstrapping phase. Pass along to "regular" setattr.
+            if key.startswith("_") and _is_module_attr(val):
+                # An HDL object under a private name would silently not be part of the Module.
+                msg = f"Invalid Module attribute name `{key}` for {val}: names starting with `_` are private to {self}"
+                raise RuntimeError(msg)
             return super().__setattr__(key, val)
 
+        # Special case(s)
+        if key == "name":
+            if val is not None and not isinstance(val, str):
+                msg = f"Invalid name {val} for {self}. (`name` is the Module's own name, and cannot hold an attribute.)"
+                raise TypeError(msg)
+            return super().__setattr__(key, val)
         if key in _banned:
             msg = f"Error attempting to over-write protected attribute {key} of Module {self}"
             raise RuntimeError(msg)
-        # Special case(s)
-        if key == "name":
-            return super().__setattr__(key, val)
 
         # Check it's a valid attribute-type
         _assert_module_attr(self, val)
+
+        # Check that the addition will be accepted, before modifying `val`
+        _assert_addable(self, val, key)
 
         # Checks out! Name `val` and add it to our type-based containers.
         val.name = key
@@ -284,7 +296,7 @@ def module(cls: type) -> Module:
 
     # Take a lap through the class dictionary, type-check everything and assign relevant attributes to the bundle
     for key, val in cls.__dict__.items():
-        if key in _banned:
+        if key in _banned and (key != "name" or _is_module_attr(val)):
             raise RuntimeError(f"Invalid field name {key} in Module {module.name}")
         elif _is_module_attr(val):
             setattr(module, key, val)
@@ -315,7 +327,33 @@ _banned = [
     "namespace",
     "add",
     "get",
+    "name",
+    "bundle_ports",
 ]
+
+
+def _assert_addable(module: Module, val: ModuleAttr, name: Any) -> None:
+    """Raise if `val` cannot be added to `module` as `name`. Called before `val` is modified in any way."""
+
+    if not isinstance(name, str) or not name or name.startswith("_"):
+        msg = f"Invalid name `{name}` for {val} in {module}: attribute names are non-empty strings, not starting with `_`"
+        raise RuntimeError(msg)
+    if module._elaborated is not None:
+        raise RuntimeError(f"Cannot add {val} to {module} after elaboration.")
+    if module._elaboration_started and not module._elaboration_open:
+        # Elaboration began but did not complete, e.g. because a parent of `module` failed.
+        msg = f"Cannot add {val} to {module}, which a (failed) elaboration has partially processed."
+        raise RuntimeError(msg)
+    prev = getattr(val, "_parent_module", None)
+    if prev is not None and prev is not module and prev.namespace.get(val.name, None) is val:
+        # Still an attribute of another Module, which would be left holding an object named and parented elsewhere.
+        if prev._elaborated is not None or prev._elaboration_started:
+            msg = f"Cannot add {val} to {module}: it is attribute `{val.name}` of {prev}, which has been elaborated"
+            raise RuntimeError(msg)
+    if val.name != name and module.namespace.get(val.name, None) is val:
+        # One object has one name. Under two, it would be exported twice, under the newer.
+        msg = f"Cannot add {val} to {module} as `{name}`: it already is its attribute `{val.name}`"
+        raise RuntimeError(msg)
 
 
 def _add(module: Module, val: ModuleAttr) -> ModuleAttr:
